@@ -17,4 +17,11 @@ CONF = {
   "assumptions": ["inputs are drawn from the notation catalogue (DESIGN 5/C08); over-rejection by config.For is not a violation (the statement constrains accepted configurations)",
                   "local-pref conflicts judged on names as written"],
  },
+ "C16": {
+  "level": "exploration",
+  "rule": "encoders: full product prefix length 0..32 x 6 address patterns x 9 ASNs across the 2/4-byte boundary x iBGP/eBGP x 4-byte capable x 4 local-prefs x community counts {0,1,2,62,63} x 3 next hops (+ edge cases: 16-byte next hop, large community, 64 communities, call after a failed call), withdraws of 0..3 prefixes of every length, OPEN over ASN x hold time x router id; each decoded by the independent bgpwire decoder. OPEN reader: every capability sequence of length <=3 from a 12-capability catalogue x packing x trailers, header/body variant product, NOTIFICATION bodies, every truncation point, delivered at once and one byte per read; distinct_nontrivial counts distinct inputs",
+  "parts": [{"name": "main", "pkg": "internal/bgp/native", "test": "TestVerif_C16", "shards": {"quick": 16, "thorough": 16}}],
+  "assumptions": ["valid encoder domain: 4-byte next hop, <=63 legacy communities, not (eBGP and 2-byte peer and ASN>65535)",
+                  "well-formed OPEN = RFC 4271 message of length 29+optlen, version 4, hold time 0 or >=3, only capability parameters, capability 65/1 of length 4"],
+ },
 }
